@@ -362,6 +362,8 @@ func c20DurationSeconds(s string) string {
 	return fmt.Sprintf("%v %s %s", neg, months.RatString(), secs.RatString())
 }
 
+var c20ReTZEnd = regexp.MustCompile(`(Z|[+-][0-9]{2}:[0-9]{2})$`)
+
 var c20Mutations = []string{" ", "\t", "\f", "\v", "\u00a0", "\u0085", "\u2003", "\r", "+", "-", ".", "0", "1", "e", "E", "Z", ":", "T", "P", "=", "x", "_", "é", "00", "\n"}
 
 func c20XSD(r *hx.Rand, n int, out *hx.Out, _ []string) {
@@ -406,6 +408,11 @@ func c20XSD(r *hx.Rand, n int, out *hx.Out, _ []string) {
 						s = s[:p] + hx.Pick(rr, c20Mutations) + s[p+1:]
 					}
 				}
+			}
+			if rr.Chance(1, 5) {
+				// the timezone: taken off, put on, or swapped for one at or beyond the edge of the lexical space
+				s = c20ReTZEnd.ReplaceAllString(s, "") + hx.Pick(rr, []string{"", "Z", "z", "+14:00", "-14:00", "+14:01", "+14:30", "-14:59", "+13:59", "-13:60", "+15:00",
+					"+24:00", "+00:60", "-00:00", "+0:00", "+00:00", "+1400", "+14", " +01:00", "+01:00:00"})
 			}
 			s = strings.ToValidUTF8(s, "?")
 			cls = "mutated"
